@@ -32,6 +32,7 @@ MAP = {  # commit subject (after "fix: ") -> (properties, what failed, which che
  "Category.coerce_value accepts missing values": (["C10"], "a failed Category coercion listed pre-existing nulls among the failure cases although a null converts (stays null)", "C10 CAT/try_coerce/N=2 coerce/failure_cases_exact"),
  "strategies of unique nullable fields emit at most one null": (["C13"], "SeriesSchema/Column/Index strategies with nullable=True and unique=True drew several nulls ([nan, nan]), which the schema rejects as duplicates", "C13 SER/*/custom=None series_draws_satisfy_schema (replayed with hypothesis.find)"),
  "to_script keeps the unique flag of index components": (["C12"], "to_script dropped unique=True of Index / MultiIndex levels (the generated script's schema differs from the original)", "C12 */yaml roundtrip/script_index_flags, script_equal (concrete complement on a second, non-default witness of the path)"),
+ "check_input with a named argument keeps *args unpacked": (["C17"], "check_input(schema, 'x') on f(x, *more) called as f(df, 1, 2) handed the body more == ((1, 2),)", "C17 name-pos-varargs decorator/other_arguments_unchanged"),
  "in_range strategy honours exclusive bounds for integer dtypes": (["C13"], "Check.in_range(0, 1, include_max=False) on an int column synthesised 1 (hypothesis ignores exclude_* for integers)", "C13 int/in_range draws_satisfy_checks (replayed with hypothesis.find)"),
 }
 
